@@ -86,7 +86,11 @@ S_NS = ('<br xmlns:tal="urn:example:my-own-vocabulary" tal:role="x" />'
 S_XB = '<p>${helper}-${name}${y()}</p>'
 S_USESVAR = "<p>${helper | 'none'}-${name}${y()}</p><b tal:condition=\"exists: helper\">has</b>"
 STRING_OPTIONS = {"xb": {"extra_builtins": {"helper": "EB"}}}
-STRINGS = {"xb": S_XB, "usesvar": S_USESVAR, "i18nattr": S_I18NATTR, "err": S_ERR, "ns": S_NS, "gmacro": S_GMACRO, "imp1": S_IMP1, "imp2": S_IMP2, "global": S_GLOBAL, "macro": S_MACRO, "code": S_CODE,
+# attribute-then-item lookup on objects of one type of which some have the
+# attribute and all have the item (what one render saw of a type must not
+# change how the next one treats another instance)
+S_ROW = '<p>${row.title}-${name}${y()}</p><i tal:content="row.title | \'no\'">x</i>'
+STRINGS = {"row": S_ROW, "xb": S_XB, "usesvar": S_USESVAR, "i18nattr": S_I18NATTR, "err": S_ERR, "ns": S_NS, "gmacro": S_GMACRO, "imp1": S_IMP1, "imp2": S_IMP2, "global": S_GLOBAL, "macro": S_MACRO, "code": S_CODE,
            "i18n": S_I18N, "nested": S_NESTED}
 
 F_LIB = (
@@ -211,6 +215,20 @@ def exc_text(e: BaseException) -> str:
 
 def fs_scratch() -> str:
     return SCRATCH_BASE
+
+
+class Row:
+    """Always offers the item 'title'; only odd ones have the attribute."""
+
+    def __init__(self, k: int) -> None:
+        self._k = k
+        if k % 2:
+            self.title = "attr-title-%d" % k
+
+    def __getitem__(self, key):
+        if key == "title":
+            return "item-title-%d" % self._k
+        raise KeyError(key)
 
 
 class Markup:
@@ -649,7 +667,7 @@ class C14(CheckBase):
                 s.yield_point("probe:y", interesting=True, access=True)
             return ""
         return {"name": "n%d" % k, "items": [k, k + 1, k + 2],
-                "helper": "H%d" % k,
+                "helper": "H%d" % k, "row": Row(k),
                 "y": y, "translate": tr_stub,
                 "markup": Markup("<em>m%d</em>" % k),
                 "opts": {"a": [k], "b": {"c": k}}}
